@@ -60,9 +60,14 @@ static char *make_jwk(const vh_key_t *k, int priv, int pad, meta_t *m, int extra
 		tb_adds(&meta, ",\"alg\":\""); tb_adds(&meta, ALGS[a]); tb_adds(&meta, "\"");
 	}
 	if (vh_below(&rng, 2)) {
-		static const char *KIDS[] = { "k1", "a-much-longer-key-identifier-0123456789", "\xc3\xa9\xf0\x9f\x94\x91", "2024-01-01", " spaced ", "x" };
-		m->kid = KIDS[vh_below(&rng, 6)];
-		tb_adds(&meta, ",\"kid\":\""); tb_adds(&meta, m->kid); tb_adds(&meta, "\"");
+		/* raw value the item must report / its spelling inside the JWK text (some need JSON escaping, some are spelled with \u escapes) */
+		static const char *KIDS[] = { "k1", "a-much-longer-key-identifier-0123456789", "\xc3\xa9\xf0\x9f\x94\x91", "2024-01-01", " spaced ", "x",
+			"DOMAIN\\key", "say \"x\"", "tab\there", "e\xc3\xa9", "slash/and%25", "line\nbreak" };
+		static const char *KIDS_JSON[] = { "k1", "a-much-longer-key-identifier-0123456789", "\xc3\xa9\xf0\x9f\x94\x91", "2024-01-01", " spaced ", "x",
+			"DOMAIN\\\\key", "say \\\"x\\\"", "tab\\there", "e\\u00e9", "slash\\/and%25", "line\\nbreak" };
+		int kidx = (int)vh_below(&rng, 12);
+		m->kid = KIDS[kidx];
+		tb_adds(&meta, ",\"kid\":\""); tb_adds(&meta, KIDS_JSON[kidx]); tb_adds(&meta, "\"");
 	}
 	switch (vh_below(&rng, 4)) {
 	case 0: m->use = 1; tb_adds(&meta, ",\"use\":\"sig\""); break;
